@@ -429,7 +429,12 @@ def run_replay(desc, contract, clause_name=None):
         fobj = getattr(getattr(mod, cls), meth) if cls else getattr(mod, meth)
         src = textwrap.dedent(inspect.getsource(fobj))
         ftree = ast.parse(src)
-        hits = [n for n in ast.walk(ftree) if isinstance(n, ast.For) and ast.unparse(n.iter).replace('"', "'") == frag["iter"].replace('"', "'")]
+        if "after" in frag:
+            fbody = ftree.body[0].body
+            idx = [i for i, st in enumerate(fbody) if ast.unparse(st).replace('"', "'").startswith(frag["after"].replace('"', "'"))]
+            hits = [ast.For(target=None, iter=None, body=fbody[idx[0] + 1:], orelse=[])]
+        else:
+            hits = [n for n in ast.walk(ftree) if isinstance(n, ast.For) and ast.unparse(n.iter).replace('"', "'") == frag["iter"].replace('"', "'")]
         if frag.get("body_contains"):
             hits = [n for n in hits if frag["body_contains"] in "\n".join(ast.unparse(b) for b in n.body)]
         loop = ast.For(target=ast.Name(id="_once", ctx=ast.Store()), iter=ast.List(elts=[ast.Constant(0)], ctx=ast.Load()), body=hits[0].body, orelse=[])
